@@ -38,7 +38,9 @@ class Sanitizer(Transformer):
             )
 
     def _check_input_coords(self, X) -> None:
-        if not X.coords[self.feature_name].identical(self.feature_coords):
+        # Compare the labels only: attributes may legitimately differ, e.g. after a
+        # model has been saved and loaded
+        if not X.coords[self.feature_name].equals(self.feature_coords):
             raise ValueError(
                 "Cannot transform data. Feature coordinates are different."
             )
